@@ -50,6 +50,17 @@ def harnesses(tier):
                    unwind=XN + 4, unwindset=['xml_extract_named_attribute.2:4'], timeout=900, mem_gb=8, slice=True, replay=False,
                    bounds='source of %d arbitrary bytes, scanner answers arbitrary (inside the text), searched name "text"' % XN,
                    desc='xml_extract_named_attribute / xml_extract_attribute: heap copies never over-read or over-written, whatever the scanners report'))
+    ALN = 4 if tier == 'quick' else 6
+    hs.append(dict(name='c01_attr_lemma', src='irb/attrlemma.c', defs=dict(N=ALN, ARENA=40), prepare=irb.prepare_scanner,
+                   unwind_auto=[12 * ALN, 20 * ALN, 32 * ALN, 50 * ALN], timeout=1500, mem_gb=8,
+                   bounds='every NUL-terminated buffer of <= %d bytes' % ALN,
+                   desc='scan_attr accepts => spnl/key/value pieces inside the string, key and value non-empty (contract used by c01_attrs)'))
+    ATN = 6 if tier == 'quick' else 8
+    hs.append(dict(name='c01_attrs', src='c01/attrs.c', defs=dict(N=ATN, DS_CAP=8),
+                   units=['repo:writer.c', 'repo:token.c', 'repo:stack.c', 'repo:object_pool.c', 'repo:char.c', 'common/ds_model.c'],
+                   unwind=ATN + 4, timeout=900, mem_gb=8, slice=True, replay=False,
+                   bounds='every attribute string of <= %d bytes, up to 3 attributes, scanner answers arbitrary within the proved contract' % ATN,
+                   desc='parse_attributes + attr_new: copies stay inside their buffers, value[len-1] never before the copy'))
     hs.append(dict(name='c01_reset_ownership', src='c05/reset.c', defs=dict(OWNERSHIP=1, DS_CAP=8), pool_off=True,
                    units=['repo:mmd.c', 'repo:writer.c', 'repo:token.c', 'repo:stack.c', 'repo:object_pool.c', 'repo:char.c', 'common/ds_model.c'],
                    unwind=12, unwindset=['token_free:5', 'token_tree_free:5'], timeout=900, mem_gb=8, slice=True,
